@@ -1,7 +1,7 @@
 (* C11 — Field presence follows the declared presence discipline.
    Statements only; each closed by [exact] of a lemma proved in Msg/PresenceP.v. *)
 From Coq Require Import List NArith Bool.
-From PB Require Import Base.PBytes Wire.WireModel Msg.PresenceModel Msg.PresenceP.
+From PB Require Import Base.PBytes Wire.WireModel Msg.PresenceModel Msg.PresenceP Msg.OneofModel Msg.OneofP.
 Import ListNotations.
 Open Scope N_scope.
 
@@ -139,6 +139,27 @@ Print Assumptions C11_has_correct_opaque.
 Example C11_has_correct_opaque_nonvacuous :
   Forall (fun io => fst io < 32 * N.of_nat 3) [(70, OpSet (PVInt 0)); (6, OpSet (PVInt 1)); (70, OpClear)].
 Proof. repeat constructor. Qed.
+
+(** presenceIndex: two different fields outside oneofs never share a presence bit, and every
+    such index is below presenceSize (so it lies inside the XXX_presence array) *)
+Theorem C11_presence_index_distinct :
+  forall fs i j bi bj, i <> j -> nth_error fs i = Some (false, bi) -> nth_error fs j = Some (false, bj) ->
+  fst (presence_index fs i) <> fst (presence_index fs j).
+Proof. exact presence_index_distinct. Qed.
+Print Assumptions C11_presence_index_distinct.
+Theorem C11_presence_index_in_range :
+  forall fs j b, nth_error fs j = Some (false, b) -> fst (presence_index fs j) < snd (presence_index fs j).
+Proof. exact presence_index_lt_size. Qed.
+Print Assumptions C11_presence_index_in_range.
+Example C11_presence_index_nonvacuous :
+  presence_index [(false, false); (true, false); (true, true); (false, false)] 3 = (2, 3).
+Proof. reflexivity. Qed.
+
+(** oneof members: Has iff the member is the selected one (from the oneof model of C12) *)
+Theorem C11_has_oneof_member_iff_selected :
+  forall w m, whas w m = true <-> wwhich w = Some m.
+Proof. exact whas_iff_which. Qed.
+Print Assumptions C11_has_oneof_member_iff_selected.
 
 (** round trips, against the minimal single-field varint codec of PresenceModel.v only
     (the full message codec is C03); hence _partial *)
